@@ -74,6 +74,12 @@ def scen_SliceDataset():
         if n:
             arr = np.array([n - 1, 0])
             yield '%s[array]' % d, ds[arr], O.ref_slice(r, [n - 1, 0]), (r.keys or [])
+            # boolean masks: a python list / tuple of bools and a numpy bool array select the True positions
+            for mask in ([i % 2 == 0 for i in range(n)], [i % 3 == 1 for i in range(n)], [True] * n, [False] * n):
+                pos = [i for i, b in enumerate(mask) if b]
+                yield '%s[%r]' % (d, mask), ds[mask], O.ref_slice(r, pos), (r.keys or [])
+                yield '%s[%r]' % (d, tuple(mask)), ds[tuple(mask)], O.ref_slice(r, pos), (r.keys or [])
+                yield '%s[np.array(%r)]' % (d, mask), ds[np.array(mask)], O.ref_slice(r, pos), (r.keys or [])
 
 
 def scen_ConcatenateDataset():
@@ -147,6 +153,13 @@ def scen_UnbatchDataset():
         for b in (1, 2, 3):
             ref = Ref(r.outs, None, False, False)
             yield '%s.batch(%d).unbatch()' % (d, b), ds.batch(b).unbatch(), ref, []
+            # drop_last: the incomplete tail batch is gone, unbatch flattens exactly what batch yields
+            keep = (r.n // b) * b
+            yield '%s.batch(%d, drop_last=True).unbatch()' % (d, b), ds.batch(b, drop_last=True).unbatch(), \
+                Ref(r.outs[:keep], None, False, False), []
+        # unbatching examples that are lists / tuples themselves (a map that fragments an example)
+        yield '%s.map(fragment).unbatch()' % d, ds.map(lambda x: [x, ('again', x)]).unbatch(), \
+            Ref([o for out in r.outs for o in (out, ('v', ('again', out[1])))], None, False, False), []
 
 
 def scen_FilterDataset():
@@ -161,6 +174,34 @@ def scen_CatchExceptionDataset():
         yield d + '.catch(LookupError)', ds.catch(LookupError), O.ref_catch(r, {'BoomIndex'}), []
         yield d + '.map(raise FilterException).catch()', ds.map(_raise_filter).catch(), \
             O.ref_catch(O.ref_map(r, _raise_filter), {'FilterException'}), []
+
+
+def scen_FromDataset():
+    # lazy_dataset.from_dataset(ds) / new(ds): a snapshot with every example of one pass, in order; it has the keys of ds
+    # when they are unique, and no keys when a key occurs twice (then it is list-backed) -- sized or not
+    import lazy_dataset
+    a = lazy_dataset.new({'a': 1, 'b': 2, 'c': 3})
+    b = lazy_dataset.new({'b': 12, 'c': 13, 'd': 14})
+    lst = lazy_dataset.new([5, 6, 7])
+
+    def odd(x):
+        return x % 2 == 1
+    cases = {
+        'dict': (a, [1, 2, 3], ['a', 'b', 'c']),
+        'list': (lst, [5, 6, 7], None),
+        'dict.filter(odd)': (a.filter(odd), [1, 3], ['a', 'c']),
+        'a ++ b (duplicate keys, sized)': (a.concatenate(b), [1, 2, 3, 12, 13, 14], None),
+        '(a ++ b).filter(odd) (duplicate keys, no length)': (a.concatenate(b).filter(odd), [1, 3, 13], None),
+        'a.tile(2).filter(odd)': (a.tile(2).filter(odd), [1, 3, 1, 3], None),
+        'a.filter(odd) ++ b.filter(odd) (unique after filtering)': (a.filter(odd).concatenate(b.filter(odd)), [1, 3, 13], None),
+        'a.map(f)[::-1]': (a.map(lambda x: x * 10)[::-1], [30, 20, 10], ['c', 'b', 'a']),
+        'empty': (a[:0], [], []),
+    }
+    # the last-but-one case has keys a, c, c: duplicate
+    for name, (ds, vals, keys) in cases.items():
+        for how in ('from_dataset', 'new'):
+            snap = lazy_dataset.from_dataset(ds) if how == 'from_dataset' else lazy_dataset.new(ds)
+            yield '%s(%s)' % (how, name), snap, Ref([('v', v) for v in vals], keys), (keys or [])
 
 
 def scen_CacheDataset():
